@@ -17,7 +17,7 @@ structure St where
 
 inductive Op where
   | new | inc (a : Nat) | dec (a : Nat) | edge (a b : Nat) | unedge (a b : Nat)
-  | tedge (a b : Nat) | oedge (a b : Nat) | updrop (a : Nat) | collect | reset | bad
+  | tedge (a b : Nat) | oedge (a b : Nat) | updrop (a : Nat) | deref (a b : Nat) | collect | reset | bad
   | brief | full | dump
   deriving Repr, DecidableEq
 
@@ -36,6 +36,7 @@ def parse (line : String) : Op :=
   | ["edge", a, b] => match a.toNat?, b.toNat? with | some a, some b => .edge a b | _, _ => .bad
   | ["unedge", a, b] => match a.toNat?, b.toNat? with | some a, some b => .unedge a b | _, _ => .bad
   | ["tedge", a, b] => match a.toNat?, b.toNat? with | some a, some b => .tedge a b | _, _ => .bad
+  | ["deref", a, b] => match a.toNat?, b.toNat? with | some a, some b => .deref a b | _, _ => .bad
   | ["oedge", a, b] => match a.toNat?, b.toNat? with | some a, some b => .oedge a b | _, _ => .bad
   | _ => .bad
 
@@ -75,6 +76,12 @@ def apply (s : St) : Op → Option St
         ∧ (s.g.node a).traced.contains b ∧ (s.g.node a).owned.contains b then
       let g := s.g.upd a fun x => { x with traced := x.traced.erase b, owned := x.owned.erase b }
       some { s with g := decRef g b }
+    else none
+  | .deref a b =>
+    -- a new handle on `b` obtained through a held object `a` that references it
+    -- (`Cell::updates`, `StreamLoop::stream`, `Listener::node_op` clone a handle stored inside)
+    if a < s.g.nextId ∧ s.handles.get a > 0 ∧ ¬ (s.g.node a).freed ∧ (s.g.node a).owned.contains b then
+      some { s with g := incRef s.g b, handles := s.handles.set b (s.handles.get b + 1) }
     else none
   | .updrop a =>
     if a < s.g.nextId then
